@@ -471,8 +471,185 @@ def generate_outside_stream(ctx, res):
                 res.violate("C07:other-key-used", "the session after generate_key() did not use the key that is in the file (it used the key generated earlier)", case)
 
 
+def failed_load_and_inner_generate_stream(ctx, res):
+    """(a) a load that FAILS while a stored secret is being opened (short ciphertext, unknown method, data written with another key)
+    leaves the configuration's key object closed: nothing can be encrypted outside a context afterwards, and the next save reads the
+    key file as it is then (another valid key is used, a malformed file is refused); (b) `generate_key()` called while contexts of the
+    object are open writes the new key to the file but the open session keeps ONE key: what it encrypted before still decrypts in it,
+    in every nesting level, and the next session uses the new file"""
+    import base64
+    import cincoconfig as cc
+    from cincoconfig.encryption import KeyFile, SecureValue
+    tmp = ctx.tmpdir()
+    k = [0]
+    # (a)
+    for failure in ("short-aes", "unknown-method", "other-key", "not-base64"):
+        for then in ("other-valid", "malformed-31", "untouched"):
+            k[0] += 1
+            path = os.path.join(tmp, "fl%d.key" % k[0])
+            key1 = bytes(range(1, 33))
+            open(path, "wb").write(key1)
+            s = cc.Schema()
+            s.name = cc.StringField(default="n")
+            s.db.password = cc.SecureField(method="aes")
+            cfg = s(key_filename=path)
+            cfg.db.password = "good-secret"
+            good = cfg.to_tree()
+            cfg.load_tree(json.loads(json.dumps(good)))
+            bad = json.loads(json.dumps(good))
+            if failure == "short-aes":
+                bad["db"]["password"]["ciphertext"] = base64.b64encode(b"x" * 16).decode()
+            elif failure == "unknown-method":
+                bad["db"]["password"]["method"] = "rot13"
+            elif failure == "other-key":
+                with KeyFile(os.path.join(tmp, "fl%d-other.key" % k[0])) as okf:
+                    sv = okf.encrypt("x" * 20, method="aes")
+                bad["db"]["password"]["ciphertext"] = base64.b64encode(sv.ciphertext).decode()
+            else:
+                bad["db"]["password"]["ciphertext"] = "!!!"
+            try:
+                cfg.load_tree(bad)
+                failed = False
+            except Exception:  # noqa
+                failed = True
+            case = {"stream": "failed-load", "failure": failure, "load_failed": failed, "then_the_key_file_is": then}
+            res.case(stable(case), kind="failed-load:" + failure)
+            kf = cfg._keyfile
+            try:
+                kf.encrypt("x", method="xor")
+                res.violate("C07:key-retained", "after a load that failed while a stored secret was being opened, encryption works with no key context open", case)
+                continue
+            except Exception:  # noqa
+                pass
+            key2 = bytes(range(201, 233))
+            if then == "other-valid":
+                open(path, "wb").write(key2)
+            elif then == "malformed-31":
+                open(path, "wb").write(b"y" * 31)
+            cfg.db.password = "good-secret"
+            try:
+                tree = cfg.to_tree()
+                saved = True
+            except Exception:  # noqa
+                saved = False
+            if then == "malformed-31":
+                if saved:
+                    res.violate("C07:malformed-used", "a save succeeded although the key file holds 31 bytes (after an earlier load had failed)", case)
+                continue
+            if not saved:
+                res.violate("C07:session-failed", "a save failed although the key file is valid (after an earlier load had failed)", case)
+                continue
+            want_key = key2 if then == "other-valid" else key1
+            try:
+                open(os.path.join(tmp, "probe.key"), "wb").write(want_key)
+                with KeyFile(os.path.join(tmp, "probe.key")) as pk:
+                    got = pk.decrypt(SecureValue(tree["db"]["password"]["method"], base64.b64decode(tree["db"]["password"]["ciphertext"])))
+            except Exception as e:  # noqa
+                got = "raised " + type(e).__name__
+            if got != b"good-secret":
+                res.violate("C07:other-key-used", "a save after a failed load did not use the key that is in the key file then", dict(case, got=repr(got)[:60]))
+    # (b)
+    for depth in (1, 2, 3):
+        for method in ("xor", "aes"):
+            k[0] += 1
+            path = os.path.join(tmp, "ig%d.key" % k[0])
+            kf = KeyFile(path)
+            case = {"stream": "generate-inside", "open_contexts": depth, "method": method}
+            res.case(stable(case), kind="generate-inside")
+            try:
+                stack = []
+                for _ in range(depth):
+                    kf.__enter__()
+                    stack.append(1)
+                before_file = open(path, "rb").read()
+                early = kf.encrypt("early", method=method)
+                kf.generate_key()
+                after_file = open(path, "rb").read()
+                late = kf.encrypt("late", method=method)
+                ok_same_session = kf.decrypt(early) == b"early" and kf.decrypt(late) == b"late"
+                for _ in range(depth - 1):
+                    kf.__exit__(None, None, None)
+                    stack.pop()
+                ok_outer = kf.decrypt(early) == b"early"
+                kf.__exit__(None, None, None)
+                stack.pop()
+            except Exception as e:  # noqa
+                for _ in stack:
+                    try:
+                        kf.__exit__(None, None, None)
+                    except Exception:  # noqa
+                        pass
+                res.violate("C07:session-key-changed", "within one open session a value encrypted earlier could not be decrypted after generate_key() was called: %s" % type(e).__name__,
+                            dict(case, error=str(e)[:80]))
+                continue
+            if not (ok_same_session and ok_outer):
+                res.violate("C07:session-key-changed", "the contexts of one session do not share one key after generate_key() was called inside it", case)
+                continue
+            if len(after_file) != 32 or after_file == before_file:
+                res.violate("C07:generate:not-fresh", "generate_key() inside a session did not write a new 32-byte key to the file", case)
+                continue
+            try:
+                with kf:
+                    nxt = kf.encrypt("next", method="xor")
+                used_new = bytes(a ^ b for a, b in zip(nxt.ciphertext, after_file)) == b"next"
+            except Exception:  # noqa
+                used_new = False
+            if not used_new:
+                res.violate("C07:other-key-used", "the session after generate_key() does not use the key that is in the file", case)
+
+
+def linked_key_file_stream(ctx, res):
+    """a key file that EXISTS and holds 32 bytes is used verbatim and never modified — also when the name the configuration was given
+    is a symbolic link to it (a link into a secrets directory): every session uses the linked file's bytes and leaves them alone; a
+    dangling link behaves like a missing file (created once)"""
+    from cincoconfig.encryption import KeyFile
+    tmp = ctx.tmpdir()
+    for kind in ("link-to-valid", "link-to-malformed", "dangling-link", "link-to-link"):
+        base = os.path.join(tmp, "lk-" + kind)
+        os.makedirs(base, exist_ok=True)
+        real = os.path.join(base, "real.key")
+        link = os.path.join(base, "app.key")
+        key = bytes(range(100, 132))
+        for pth in (real, link, os.path.join(base, "mid.key")):
+            if os.path.lexists(pth):
+                os.remove(pth)
+        if kind in ("link-to-valid", "link-to-link"):
+            open(real, "wb").write(key)
+        elif kind == "link-to-malformed":
+            open(real, "wb").write(b"short")
+        if kind == "link-to-link":
+            os.symlink(real, os.path.join(base, "mid.key"))
+            os.symlink(os.path.join(base, "mid.key"), link)
+        else:
+            os.symlink(real, link)
+        case = {"stream": "linked-key-file", "kind": kind}
+        res.case(stable(case), kind="linked-key-file")
+        outs = []
+        for session in range(3):
+            kf = KeyFile(link)
+            try:
+                with kf as c_:
+                    sv = c_.encrypt("payload", method="xor")
+                outs.append(bytes(a ^ b for a, b in zip(sv.ciphertext, b"payload")))
+            except Exception as e:  # noqa
+                outs.append("raised %s" % type(e).__name__)
+        now = open(real, "rb").read() if os.path.exists(real) else None
+        if kind in ("link-to-valid", "link-to-link"):
+            if now != key or any(o != key[:7] for o in outs):
+                res.violate("C07:linked-file-not-verbatim", "a valid key file reached through a symbolic link was not used verbatim (or was modified)",
+                            dict(case, file_unchanged=now == key, sessions=[o if isinstance(o, str) else o.hex() for o in outs]))
+        elif kind == "link-to-malformed":
+            if now != b"short" or any(not isinstance(o, str) for o in outs):
+                res.violate("C07:malformed-used", "a malformed key file reached through a symbolic link was not rejected on every attempt (or was modified)", dict(case, file=repr(now)))
+        else:
+            if now is None or len(now) != 32 or any(isinstance(o, str) for o in outs) or len({o for o in outs}) != 1 or outs[0] != now[:7]:
+                res.violate("C07:not-created-once", "a missing key file named through a link was not created once and then reused", dict(case, size=None if now is None else len(now)))
+
+
 def run(ctx, n_quick=400, n_thorough=20000):
     res = Result()
+    guard(res, "C07", linked_key_file_stream, ctx, res)
+    guard(res, "C07", failed_load_and_inner_generate_stream, ctx, res)
     guard(res, "C07", config_sessions_stream, ctx, res)
     guard(res, "C07", generate_outside_stream, ctx, res)
     tmp = ctx.tmpdir()
